@@ -88,8 +88,17 @@ class Run:
         self.env = env or {}
 
 
+MEMCHECK = {"memcheck": "release", "fhex-memcheck": "fhex-release", "memcheck-debug": "debug", "fhex-memcheck-debug": "fhex-debug"}
+
+
+def base_variant(v):
+    """the build a variant runs (valgrind variants run an ordinary native build)"""
+    return MEMCHECK.get(v, v)
+
+
 def target_dir(variant):
-    if variant in ("debug", "release", "memcheck"):
+    variant = base_variant(variant)
+    if variant in ("debug", "release"):
         return os.path.join(HARNESS, "target")
     return os.path.join(HARNESS, "target", "v-" + variant.replace("+", "_"))
 
@@ -97,14 +106,15 @@ def target_dir(variant):
 def build_cmd(engine, variant):
     """Return (argv, env) that builds `engine` for `variant`; None if run builds it."""
     env = base_env()
+    variant = base_variant(variant)
     if variant == "debug":
         return ["cargo", "build", "--offline", "--bin", engine], env
-    if variant in ("release", "memcheck"):
+    if variant in ("release",):
         return ["cargo", "build", "--offline", "--release", "--bin", engine], env
     if variant == "fhex-debug":
         return ["cargo", "build", "--offline", "--features", "fasterhex", "--bin", engine,
                 "--target-dir", target_dir(variant)], env
-    if variant in ("fhex-release", "fhex-memcheck"):
+    if variant in ("fhex-release",):
         return ["cargo", "build", "--offline", "--release", "--features", "fasterhex", "--bin", engine,
                 "--target-dir", target_dir("fhex-release")], env
     if variant in ("asan", "fhex-asan"):
@@ -131,13 +141,14 @@ def miri_flags(variant, extra):
 
 
 def exe_path(engine, variant):
+    variant = base_variant(variant)
     if variant == "debug":
         return os.path.join(HARNESS, "target", "debug", engine)
-    if variant in ("release", "memcheck"):
+    if variant in ("release",):
         return os.path.join(HARNESS, "target", "release", engine)
     if variant == "fhex-debug":
         return os.path.join(target_dir(variant), "debug", engine)
-    if variant in ("fhex-release", "fhex-memcheck"):
+    if variant in ("fhex-release",):
         return os.path.join(target_dir("fhex-release"), "release", engine)
     if variant in ("asan", "fhex-asan"):
         return os.path.join(target_dir(variant), "x86_64-unknown-linux-gnu", "debug", engine)
@@ -155,7 +166,7 @@ def run_argv(run, shard, seed, tier, trace):
         env["MIRIFLAGS"] = miri_flags(v, run.miri_extra)
         return (["cargo", "+nightly", "miri", "run", "--offline", "-q", "--bin", run.engine, "--target-dir",
                  target_dir("miri"), "--"] + common, env)
-    if v in ("memcheck", "fhex-memcheck"):
+    if v in MEMCHECK:
         return (["valgrind", "--tool=memcheck", "--error-exitcode=97", "--leak-check=full", "--errors-for-leak-kinds=definite",
                  "--show-leak-kinds=definite", "-q", exe_path(run.engine, v)] + common, env)
     if v in ("asan", "fhex-asan"):
@@ -231,7 +242,7 @@ def execute(run, shard, seed, tier, trace, timeout):
     elif v in ("asan", "fhex-asan"):
         for m in re.finditer(r"ERROR: (AddressSanitizer|LeakSanitizer): [^\n]*", nonmark):
             res.detector_reports.append(("asan", m.group(0)))
-    elif v in ("memcheck", "fhex-memcheck"):
+    elif v in MEMCHECK:
         for m in re.finditer(r"==\d+== (Invalid (read|write|free)[^\n]*|Conditional jump or move depends on uninitialised[^\n]*|Use of uninitialised[^\n]*|Mismatched free[^\n]*|[\d,]+ bytes in [\d,]+ blocks are definitely lost[^\n]*|Source and destination overlap[^\n]*)", nonmark):
             res.detector_reports.append(("memcheck", m.group(1)))
     return res
@@ -364,7 +375,7 @@ def check_property(prop, spec, tier, seed, replay=None):
     # ---- build: one cargo invocation per variant with every engine it needs
     by_variant = {}
     for r in runs:
-        v = "release" if r.variant == "memcheck" else ("fhex-release" if r.variant == "fhex-memcheck" else r.variant)
+        v = base_variant(r.variant)
         by_variant.setdefault(v, [])
         if r.engine not in by_variant[v]:
             by_variant[v].append(r.engine)
